@@ -8,6 +8,7 @@ import (
 	"os"
 	"reflect"
 	"sort"
+	"strconv"
 	"strings"
 
 	"golang.org/x/tools/go/ssa"
@@ -19,6 +20,10 @@ type InputDecl struct {
 	T    *Term  // scalar term / length term for bytes
 	Arr  *Term  // array var for bytes
 	Max  int
+	// Guard: the path condition under which this input was drawn. After states merge, a path that drew fewer inputs
+	// of a name continues with the larger counter; the model given to the native run is renumbered over the inputs
+	// whose guard is true, which is the order in which the native run draws them.
+	Guard *Term
 }
 
 type Failure struct {
@@ -103,6 +108,7 @@ func (h *HarnessRun) unwindHit(e *Exec, st *State, fn *ssa.Function, b *ssa.Basi
 
 // inputs are tracked in State.log-free side tables keyed by state identity; forks copy them.
 func (e *Exec) addInput(st *State, d InputDecl) {
+	d.Guard = e.tc.AndN(st.pc)
 	st.inputs = append(st.inputs, d)
 }
 
@@ -481,25 +487,54 @@ func (e *Exec) assertTerm(st *State, id string, c *Term, msg string) []Outcome {
 func (e *Exec) extractModel(st *State) (map[string]interface{}, error) {
 	model := map[string]interface{}{}
 	var scal []*Term
-	var names []string
 	for _, d := range st.inputs {
 		scal = append(scal, d.T)
-		names = append(names, d.Name)
+	}
+	for _, d := range st.inputs {
+		g := d.Guard
+		if g == nil {
+			g = e.tc.True()
+		}
+		scal = append(scal, g)
 	}
 	vals, err := e.sol.Eval(scal)
 	if err != nil {
 		return nil, err
 	}
+	// renumber: per base name, the inputs actually drawn on the path the model follows, in drawing order
+	n0 := len(st.inputs)
+	type drawn struct{ idx, k int }
+	byBase := map[string][]drawn{}
+	parts := make([][3]string, n0)
 	for i, d := range st.inputs {
+		base, k, suffix := splitInputName(d.Name)
+		parts[i] = [3]string{base, "", suffix}
+		if vals[n0+i] == 0 {
+			continue
+		}
+		byBase[base] = append(byBase[base], drawn{i, k})
+	}
+	newName := make([]string, n0)
+	for base, ds := range byBase {
+		sort.SliceStable(ds, func(a, b int) bool { return ds[a].k < ds[b].k })
+		pos, last := -1, -1
+		for _, d := range ds {
+			if d.k != last {
+				pos++
+				last = d.k
+			}
+			newName[d.idx] = fmt.Sprintf("%s#%d%s", base, pos, parts[d.idx][2])
+		}
+	}
+	for i, d := range st.inputs {
+		if newName[i] == "" {
+			continue // not drawn on this path
+		}
 		if d.Kind != "bytes" {
-			model[d.Name] = vals[i]
+			model[newName[i]] = vals[i]
 			continue
 		}
 		n := int(vals[i])
-		trunc := false
-		if n > 8192 {
-			trunc = true
-		}
 		m := n
 		if m > 8192 {
 			m = 8192
@@ -516,10 +551,23 @@ func (e *Exec) extractModel(st *State) (map[string]interface{}, error) {
 		for j := 0; j < m; j++ {
 			buf[j] = byte(bv[j])
 		}
-		_ = trunc
-		model[d.Name] = fmt.Sprintf("%x", buf)
+		model[newName[i]] = fmt.Sprintf("%x", buf)
 	}
 	return model, nil
+}
+
+// splitInputName splits "name#k" / "name#k.suffix" into its parts.
+func splitInputName(s string) (string, int, string) {
+	i := strings.LastIndex(s, "#")
+	if i < 0 {
+		return s, 0, ""
+	}
+	j := i + 1
+	for j < len(s) && s[j] >= '0' && s[j] <= '9' {
+		j++
+	}
+	k, _ := strconv.Atoi(s[i+1 : j])
+	return s[:i], k, s[j:]
 }
 
 // evalObservations evaluates the observations of st under the current kept model.
